@@ -80,7 +80,12 @@ def step (s : St) (line : String) : St × String :=
       let f : File := { gen := g, seq := q, keys := ks.map fun (k, v) => (k, { vals := v, tombs := [] }) }
       ({ s with files := insertFile s.files f, maxG := max s.maxG g }, "ok")
     | _, _, _ => (s, "bad-op")
-  | ["tomb", i, key, lo, hi] =>
+  -- an error injected from a reader: the compaction fails and leaves its inputs, or loses
+  -- nothing (judged on the implementation's side; the model's answer is the acceptable one)
+  | ["rerr", _, _, _, _] => (s, "rerr handled")
+  | [tk, i, key, lo, hi] =>
+    -- `tombrace`: the same delete, with the file asked for its tombstones half-way
+    if tk != "tomb" && tk != "tombrace" then (s, "bad-op") else
     match i.toNat?, lo.toInt?, hi.toInt? with
     | some i, some lo, some hi =>
       if i ≥ s.files.length then (s, "bad-op") else
@@ -117,9 +122,6 @@ def step (s : St) (line : String) : St × String :=
       let f : File := { gen := s.maxG + 1, seq := 1, keys := sorted }
       ({ s with files := insertFile s.files f, maxG := s.maxG + 1 }, showContent (sorted.map fun (k, d) => digest k d.vals))
     | none => (s, "bad-op")
-  -- an error injected from a reader: the compaction fails and leaves its inputs, or loses
-  -- nothing (judged on the implementation's side; the model's answer is the acceptable one)
-  | ["rerr", _, _, _, _] => (s, "rerr handled")
   | ["all"] =>
     let parts := (allKeys s.files).filterMap fun k =>
       let v := mergeFiles (keyDatas s.files k)
